@@ -1,0 +1,12 @@
+//go:build verif
+// +build verif
+
+package api
+
+import "github.com/evanw/esbuild/internal/config"
+
+// VerifValidatePathTemplate exposes validatePathTemplate (parsing of the
+// entry/chunk/asset name templates) to the C17 correspondence check.
+func VerifValidatePathTemplate(template string) []config.PathTemplate {
+	return validatePathTemplate(template)
+}
